@@ -450,7 +450,9 @@ func treeOne(c *Ctx, rng *lab.RNG, cs treeCase) {
 					}
 					if sa.NumPages > sb.NumPages && (sa.NumPages+2)*sa.PageSize > sa.Allocated {
 						// the next page would not fit in the mapped length: page-count boundary of the file
-						if !m.sawBoundary || rng.Chance(0.02*m.scale()) {
+						{
+							// always: after a reopen the mapped length is the whole (doubled) file, so the next boundary only
+							// comes when that file is full - and then the last page may fit EXACTLY
 							m.sawBoundary = true
 							if !m.reopen("page-boundary") {
 								return
